@@ -731,11 +731,11 @@ impl<'a> W<'a> {
             // larger than anything the repository's tests use: 1024 signatures = 2049 multiscalar terms
             n = 1024;
         }
-        if self.rng.chance(1, if self.thorough { 150 } else { 700 }) {
+        if self.rng.chance(1, if self.thorough { 100 } else { 300 }) {
             // beyond 4096 entries (an implementation that works in blocks must not lose the tail)
             n = 4100;
         }
-        if self.rng.chance(1, if self.thorough { 400 } else { 2500 }) {
+        if self.rng.chance(1, if self.thorough { 100 } else { 250 }) {
             // beyond 8192 and 16384 entries (recursive splitting, 2^15-term multiscalar inputs)
             n = if self.rng.chance(1, 3) { 16400 } else { 8200 };
         }
@@ -745,12 +745,19 @@ impl<'a> W<'a> {
         let seeds: Vec<[u8; 32]> = (0..nsign).map(|_| self.rng.arr32()).collect();
         let pubs: Vec<[u8; 32]> = seeds.iter().map(eddsa::public_key).collect();
         let mut entries: Vec<(Vec<u8>, Vec<u8>, Vec<u8>)> = Vec::with_capacity(n);
-        for _ in 0..n {
+        // very large batches draw their honest entries from a pool of distinct triples (the batch coefficients still
+        // differ per position); what such sizes probe is the implementation's handling of length, not of content
+        let pool_n = if n > 1024 { 48 } else { n };
+        for _ in 0..pool_n {
             let i = self.rng.below(nsign as u64) as usize;
             let ml = self.rng.below(48) as usize;
             let m = self.rng.bytes(ml);
             let sig = eddsa::sign(&seeds[i], &m);
             entries.push((pubs[i].to_vec(), m, sig.to_vec()));
+        }
+        while entries.len() < n {
+            let e = entries[self.rng.below(pool_n as u64) as usize].clone();
+            entries.push(e);
         }
         // exotic but valid entries, inside the property's domain: nonce r = 0 (R is the identity encoding) and
         // the identity as key (any R = [S]B verifies); single and batch verification must both accept them
